@@ -786,8 +786,22 @@ impl GatheringTask for QueryClustersTask {
         self: Box<Self>,
         _server: &mut Server,
         client: &mut OptionalClient,
-        _timed_out: bool,
+        timed_out: bool,
     ) {
+        // a query is answered OK only when every worker answered it successfully
+        if timed_out || self.gatherer.errors > 0 {
+            client.finish_failure(format!(
+                "Could not query all workers: {} answered, {} failed{}",
+                self.gatherer.ok,
+                self.gatherer.errors,
+                if timed_out {
+                    ", the others did not answer in time"
+                } else {
+                    ""
+                }
+            ));
+            return;
+        }
         let mut worker_responses: BTreeMap<String, ResponseContent> = self
             .gatherer
             .responses
